@@ -143,8 +143,14 @@ func (w *workerState) handle(req *Req) Resp {
 	resp := Resp{ID: req.ID}
 	if req.Env != nil {
 		// calls, operators and the Evaluator entry points run in the requested environment
+		env := req.Env.build()
+		if env == nil {
+			// envs.ReadEnvironment rejected it: nothing to evaluate
+			resp.Out = append(resp.Out, Out{St: "ok", RK: "environment-rejected"})
+			return resp
+		}
 		saved := w.env
-		w.env = req.Env.build()
+		w.env = env
 		defer func() { w.env = saved }()
 	}
 	switch req.Kind {
